@@ -351,7 +351,7 @@ fn run(ctx: &mut Ctx) {
         }
     });
     // ---- geometry: wire <-> pad column association, end to end through avalanches()
-    let model = crate::sim::Model::load(REPO);
+    let model = crate::sim::Model::load(&repo_root());
     let cols: Vec<usize> = (0..32).collect();
     ctx.cases("geometry", 256, |ctx, w, rng| {
         let w = w as usize;
